@@ -224,9 +224,12 @@ def parseFilter : String → Option FilterName
   | "hamming" => some .hamming | "hann" => some .hann | "none" => some .none   -- Python `None`
   | _ => Option.none
 
-/-- get_fourier_filter_torch with its two `raise ValueError` branches -/
+/-- get_fourier_filter_torch with its two `raise ValueError` branches; size 0 passes the parity
+check and fails in `torch.arange(size // 2 - 1, 0, -2)` = `arange(-1, 0, -2)` (RuntimeError: bounds
+inconsistent with the step sign) before the filter name is looked at -/
 def fourierFilterTorchE (P : Nat) (name : String) : Except String (List R) :=
   if P % 2 ≠ 0 then .error "ValueError"            -- "Filter size must be even"
+  else if P = 0 then .error "RuntimeError"         -- torch.arange(-1, 0, -2)
   else match parseFilter name with
     | some n => .ok (fourierFilterTorch n P)
     | Option.none => .error "ValueError"                  -- "Unknown filter"
@@ -259,10 +262,12 @@ def rampSpatialSk (P : Nat) (ns : List Int) : List R :=
 
 /-- skimage `_get_fourier_filter(size, name)` with its implicit error: the broadcast failure of
 `f[1::2] = ...` when `len(n)` is neither `len(f[1::2]) = size // 2` nor 1.  An unknown name
-falls through every `elif` and returns the ramp. -/
+falls through every `elif` and returns the ramp.  Size 0: `n` is empty (no broadcast error) and
+`f[0] = 0.25` on the empty array raises IndexError. -/
 def fourierFilterSkE (P : Nat) (name : String) : Except String (List R) :=
   let ns := nListSk P
   if ns.length ≠ P / 2 ∧ ns.length ≠ 1 then .error "ValueError"
+  else if P = 0 then .error "IndexError"           -- `f = np.zeros(0); f[0] = 0.25`
   else
     let ramp : List R := (Dft.dft ((rampSpatialSk P ns : List R).map Cx.ofReal)).map fun z => Num.two * z.re
     let nm := (parseFilter name).getD .ramp
